@@ -150,15 +150,21 @@ def collection_spec(draw, ctype=None, paths="plain"):
         for _ in range(nus)
     ]
     tags = draw(st.lists(st.tuples(_label, _text).map(list), min_size=0, max_size=5, unique_by=lambda t: (t[0], t[1])))
-    if draw(st.integers(0, 3)) == 0:
-        # distinct tags whose label/value collide under naive joining or normalisation
-        sep = draw(st.sampled_from([":", ",", "|", " ", "=", "/", "-", "_", ""]))
-        extra = [["taxon", f"genus{sep}Myotis"], [f"taxon{sep}genus", "Myotis"], ["Taxon", f"genus{sep}Myotis"], ["taxon", f"genus{sep}myotis"], ["taxon ", f"genus{sep}Myotis"]]
-        # unicode look-alikes: canonically / compatibility-equivalent but distinct strings
-        extra += [["island", "R\u00e9union"], ["island", "Re\u0301union"], ["\u212bngstr\u00f6m", "x"], ["\u00c5ngstr\u00f6m", "x"], ["lig", "\ufb01sh"], ["lig", "fish"], ["w", "\uff21"], ["w", "A"]]
-        for t in draw(st.permutations(extra))[: draw(st.integers(2, 5))]:
-            if t not in tags:
-                tags.append(t)
+    if draw(st.integers(0, 2)) == 0:
+        # distinct tags whose label/value collide under naive joining or normalisation; always added as PAIRS of look-alikes
+        sep = draw(st.sampled_from([":", ":", ":", ",", "|", " ", "=", "/", "-", "_", ""]))
+        base = ["taxon", f"genus{sep}Myotis"]
+        pairs = [
+            [base, [f"taxon{sep}genus", "Myotis"]], [base, ["Taxon", f"genus{sep}Myotis"]], [base, ["taxon", f"genus{sep}myotis"]], [base, ["taxon ", f"genus{sep}Myotis"]],
+            # unicode look-alikes: canonically / compatibility-equivalent but distinct strings
+            [["island", "R\u00e9union"], ["island", "Re\u0301union"]], [["\u212bngstr\u00f6m", "x"], ["\u00c5ngstr\u00f6m", "x"]], [["lig", "\ufb01sh"], ["lig", "fish"]], [["w", "\uff21"], ["w", "A"]],
+        ]
+        first = draw(st.integers(0, 3))  # one of the separator / case / blank pairs is always in
+        chosen = [pairs[first]] + draw(st.permutations(pairs[:first] + pairs[first + 1 :]))[: draw(st.integers(0, 2))]
+        for pair in chosen:
+            for t in pair:
+                if t not in tags:
+                    tags.append(t)
     ntg = len(tags)
     nrec = draw(st.integers(1, 3)) if ctype not in ("recording_set", "dataset") else draw(st.integers(0, 3))
     recs = []
